@@ -16,7 +16,7 @@
 From Avfs Require Import Base PathModel PathSpec PathProofs PathCleanProofs PathIterProofs.
 From Coq Require Import Permutation.
 From Avfs Require Import MemFS MemFile World Posix Inv WalkBridge WalkSym WalkBudget WalkReadlink WalkRel StepEq WalkInv StepInv
-  HeapEq HeapEqSnap StepRename StepRenameDir StepHist StepCwd StepMkdirAll StepHistM StepRemoveAll StepRemoveAllEx StepOpen StepHistO StepNamePath.
+  HeapEq HeapEqSnap StepRename StepRenameDir StepHist StepCwd StepMkdirAll StepHistM StepRemoveAll StepRemoveAllEx StepOpen StepHistO StepNamePath StepCwdCreate.
 
 Theorem C01_step_stat : forall (s : fsys) (sv : sview) (cs : list str),
   step_hyps s sv -> path_ok s sv SlStat cs ->
@@ -563,3 +563,34 @@ Proof.
   split; [exact StepNamePathExamples.mkdir_rel_instance|].
   split; [exact (proj2 StepNamePathExamples.write_file_rel_instance)|exact (proj2 StepNamePathExamples.open_excl_rel_instance)].
 Qed.
+
+(* ---- histories with the working directory and relative creating calls, on the states of C05 -------------------------------------------------- *)
+(* [covered_d] = the calls of [covered_c] (absolute-path calls, Stat-like calls on resolved paths, Chdir, Getwd) or Mkdir, Symlink,
+   Link, WriteFile, OpenFile (any flag word) on resolved name paths ([covered_np]) - each with "the working-directory string still
+   denotes the working-directory node after the call" for the mutating ones.  Unlike [C01_history_cwd] the per-state hypotheses
+   ([step_hyps], [Inv_heap], [links_ok]) are DERIVED along the run from [Inv] and [links_ok] of the initial world. *)
+Theorem C01_step_cwd_create : forall (w : world) (vi : nat) (sw : sworld) (d : str) (c : call),
+  absc w vi sw d -> covered_d vi sw d c ->
+  obs_sim (snd (impl_step_proj w c)) (snd (spec_step true sw c))
+  /\ exists d', absc (fst (impl_step_proj w c)) vi (fst (spec_step true sw c)) d'.
+Proof. exact step_world_d. Qed.
+
+Theorem C01_history_inv_cwd : forall (vi : nat) (cs : list call) (w : world) (sw : sworld),
+  Inv w -> absc w vi sw (cwd_of w vi) -> us_admin (v_user (sv_view (sw_sv sw))) = true -> links_ok (f_heap (w_fs w)) ->
+  call_ok_run_d vi w sw cs ->
+  Forall2 obs_sim (snd (impl_run w cs)) (snd (spec_run sw cs))
+  /\ absc (fst (impl_run w cs)) vi (fst (spec_run sw cs)) (cwd_of (fst (impl_run w cs)) vi)
+  /\ Inv (fst (impl_run w cs)) /\ links_ok (f_heap (w_fs (fst (impl_run w cs)))).
+Proof. exact history_inv_d. Qed.
+
+(* Chdir "/d/e"; Mkdir "../x"; WriteFile "../x/f"; Link "f" "../x/g"; OpenFile "../x/g" O_RDWR|O_APPEND;
+   OpenFile "../x/n" O_CREATE|O_EXCL|O_WRONLY; Getwd *)
+Example C01_history_inv_cwd_example :
+  (Forall2 obs_sim (snd (impl_run StepExamples.w_tree StepCwdCreateExamples.hd)) (snd (spec_run StepExamples.sw_tree StepCwdCreateExamples.hd))
+   /\ absc (fst (impl_run StepExamples.w_tree StepCwdCreateExamples.hd)) 0 (fst (spec_run StepExamples.sw_tree StepCwdCreateExamples.hd))
+        (cwd_of (fst (impl_run StepExamples.w_tree StepCwdCreateExamples.hd)) 0)
+   /\ Inv (fst (impl_run StepExamples.w_tree StepCwdCreateExamples.hd))
+   /\ links_ok (f_heap (w_fs (fst (impl_run StepExamples.w_tree StepCwdCreateExamples.hd)))))
+  /\ snd (spec_run StepExamples.sw_tree StepCwdCreateExamples.hd)
+     = [SOk; SOk; SOk; SOk; SOk; SOk; SStr (abs_path [WalkSymExamples.s_d; WalkSymExamples.s_e])].
+Proof. split; [exact StepCwdCreateExamples.hd_inv|exact StepCwdCreateExamples.hd_results]. Qed.
